@@ -12,7 +12,7 @@ import (
 // FaultAt addresses one injected fault: the Rel-th call (counted from the start of
 // the operation under test) of one target sequence.
 type FaultAt struct {
-	Target string // "ext" (metastore+KMS call log), "aead", "alloc"
+	Target string // "ext" (metastore+KMS call log), "aead", "alloc", "sec-open", "sec-release" (reads of key secrets)
 	Rel    int
 	Kind   kit.FaultKind // for "ext"; ignored otherwise
 }
@@ -51,6 +51,7 @@ type FaultScenario struct {
 	Base  int // call-log length when the operation under test started
 	ABase int
 	SBase int
+	RBase int // secret reads made before the operation under test
 }
 
 // DrawScenario draws a scenario (everything except the fault positions).
@@ -83,7 +84,7 @@ func (sc *FaultScenario) Exec(t *rapid.T, op func(sc *FaultScenario) *Event) *Ev
 	sc.W = w
 	sc.setup()
 	sc.Fired = make([]bool, len(sc.Faults))
-	sc.Base, sc.ABase, sc.SBase = w.Log.Len(), w.AEAD.Len(), w.Secrets.Count()
+	sc.Base, sc.ABase, sc.SBase, sc.RBase = w.Log.Len(), w.AEAD.Len(), w.Secrets.Count(), w.Secrets.Reads()
 	ext := map[int]int{}
 	aead := map[int]int{}
 	for i, f := range sc.Faults {
@@ -94,6 +95,10 @@ func (sc *FaultScenario) Exec(t *rapid.T, op func(sc *FaultScenario) *Event) *Ev
 			aead[f.Rel] = i
 		case "alloc":
 			w.Secrets.FailRel(f.Rel, func() { sc.Fired[i] = true })
+		case "sec-open":
+			w.Secrets.FailOpenRel(f.Rel, func() { sc.Fired[i] = true })
+		case "sec-release":
+			w.Secrets.FailReleaseRel(f.Rel, func() { sc.Fired[i] = true })
 		}
 	}
 	w.Log.Plan = func(idx int, c *kit.Call) kit.FaultKind {
